@@ -503,11 +503,10 @@ impl UnixStr {
         if next_slash_back == 0 {
             next_slash_back += 1;
         }
-        unsafe {
-            Some(UnixString(
-                self.0.get_unchecked(..=next_slash_back).to_vec(),
-            ))
-        }
+        // Take everything before the separator (or the root slash) and null terminate it
+        let mut parent = unsafe { self.0.get_unchecked(..next_slash_back).to_vec() };
+        parent.push(NULL_BYTE);
+        Some(UnixString(parent))
     }
 }
 
